@@ -730,6 +730,27 @@ theorem edit_spec {s s' : State} {n : String} {c : List String} {i : Option Stri
     · intro k r' hk; rw [habs] at hk
       exact recsOK_upd_some n (withRest r c i ol ofast) (h.recs n r hr) h.recs k r' hk
 
+theorem touch_spec {s s' : State} {n : String} (h : Good s) (hd : touch s n = .ok s') :
+    Good s' ∧ (abs s n).isSome ∧ ∀ k, abs s' k = abs s k := by
+  unfold touch at hd
+  cases hg : getItem s n with
+  | error e => simp [hg] at hd
+  | ok p =>
+    obtain ⟨s1, r⟩ := p
+    simp only [hg, Except.ok.injEq] at hd
+    subst hd
+    obtain ⟨hg1, hsame, hr, ⟨d, hl⟩, _, _⟩ := getItem_spec h hg
+    have habs : ∀ k, abs (setLoaded s1 n r s1.uni) k = abs s k := by
+      intro k
+      rw [abs_setLoaded]
+      split
+      · rename_i e; subst e; exact hr.symm
+      · exact hsame k
+    refine ⟨⟨wf_setLoaded hg1.wf n _ s1.uni hl, ?_, recsOK_congr habs h.recs⟩, by rw [hr]; rfl, habs⟩
+    unfold UniOK
+    apply uniInv_congr (fun k => (habs k).symm)
+    exact uniInv_congr hsame hg1.uni
+
 theorem rename_spec {s s' : State} {o n : String} (h : Good s) (hdom : o = n ∨ abs s n = none)
     (hd : rename s o n = .ok s') :
     Good s' ∧ ∃ r, abs s o = some r ∧
@@ -1217,6 +1238,21 @@ theorem step_refines {s : State} (op : Op) (h : Good s) (hop : OpOK (abs s) op) 
       simp [hrn, hg1, ha]
     | error e =>
       unfold editRest at hr
+      cases hg : getItem s n with
+      | error e2 =>
+        have := (getItem_error_iff h.wf).mp ⟨e2, hg⟩
+        simp [this, h]
+      | ok p =>
+        exfalso
+        simp [hg] at hr
+  | touch n =>
+    simp only [step, specStep]
+    cases hr : touch s n with
+    | ok s' =>
+      obtain ⟨hg1, hv, ha⟩ := touch_spec h hr
+      simp [hv, hg1, ha]
+    | error e =>
+      unfold touch at hr
       cases hg : getItem s n with
       | error e2 =>
         have := (getItem_error_iff h.wf).mp ⟨e2, hg⟩
